@@ -89,7 +89,19 @@ pub fn check_case2(c: &RCase, q: &QRCode, other: Option<&QRCode>) -> (Vec<(Strin
     let (fg, bg, _) = COLOUR_PAIRS[c.colours];
     let mk = || {
         let mut b = ImageBuilder::default();
-        b.shape(SHAPES[c.shape]).margin(c.margin).module_color(fg).background_color(bg);
+        // colours go through every conversion route in turn: [u8; 4] arrays, Vec<u8>, &[u8]
+        b.shape(SHAPES[c.shape]).margin(c.margin);
+        match (c.v + c.margin + c.shape) % 3 {
+            0 => {
+                b.module_color(fg).background_color(bg);
+            }
+            1 => {
+                b.module_color(fg.to_vec()).background_color(bg.to_vec());
+            }
+            _ => {
+                b.module_color(&fg[..]).background_color(&bg[..]);
+            }
+        }
         match c.fit {
             Fit::Original => {}
             Fit::Width(w) => {
